@@ -7,6 +7,7 @@ import copy
 import itertools
 import math
 import multiprocessing as mp
+import collections
 import os
 import random
 import sys
@@ -839,14 +840,124 @@ def extra_c12(seed, tier, log):
                          f"chk_regsec {q(I)} {nr}%nat {ns}%nat {ws_expr(wr)} {ws_expr(ws_)} {impl_expr(impl_list)}")
             except cases.NonFinite:
                 pass
+    # ---- labelled calls: labels listed several times, weights looked up by label (ctor.labelled)
+    rid = {r: i for i, r in enumerate(regions)}
+    sid_ = {s_: i for i, s_ in enumerate(sectors)}
+
+    def lbl(a):
+        return rid[a[0]] * 1000 + sid_[a[1]]
+
+    def nl(ids):
+        return "[" + "; ".join(f"{i}%nat" for i in ids) + "]"
+
+    def wl(w, key):
+        if w is None:
+            return "None"
+        return "(Some [" + "; ".join(f"({key(k_)}%nat, {q(v_)})" for k_, v_ in w) + "])"
+
+    def il(got, key=lbl):
+        if got is None:
+            return "None"
+        return "(Some [" + "; ".join(f"({key(k_)}%nat, {q(v_)})" for k_, v_ in got.items()) + "])"
+
+    dup_stats = collections.Counter()
+    for k in range(n_for(tier, 40, 300)):
+        I = rng.choice([1.0, 3.5, 1e6, 123456.789, 0.25])
+        dup = rng.random() < 0.6
+        if rng.random() < 0.5:
+            allind = [(r, s_) for r in regions for s_ in sectors]
+            aff = rng.sample(allind, rng.randint(1, 5))
+            if dup:
+                aff = aff + [rng.choice(aff) for _ in range(rng.randint(1, 2))]
+                rng.shuffle(aff)
+            w = None
+            distrib = "equal"
+            if rng.random() < 0.6:
+                cover = list(dict.fromkeys(aff)) + rng.sample([x for x in allind if x not in aff], rng.randint(0, 2))
+                if rng.random() < 0.15:
+                    cover.remove(rng.choice(cover[:len(set(aff))]))
+                w = [(c, rng.choice([1.0, 2.0, 0.5, 7.25])) for c in cover]
+                rng.shuffle(w)
+                distrib = pd.Series([v for _, v in w], index=pd.MultiIndex.from_tuples([c for c, _ in w], names=["region", "sector"]))
+            got = err = None
+            try:
+                got = scen.bev.from_scalar_industries(I, event_type="recovery", affected_industries=list(aff),
+                                                      impact_distrib=distrib, recovery_tau=5).impact
+            except Exception as ex:  # noqa: BLE001
+                err = ex
+            evals += 1
+            dup_stats["industries" + ("+dup" if dup else "")] += 1
+            desc = dict(kind="industries (labelled)", I=I, affected=aff, weights=w)
+            distinct = list(dict.fromkeys(aff))
+            if got is not None:
+                if sorted(got.index) != sorted(distinct):
+                    failures.append(_fail("C12", None, f"impact entries {list(got.index)} are not the distinct listed industries ({desc})", sig="scalar-support-dup"))
+                elif abs(float(got.sum()) - I) > 1e-9 * I:
+                    failures.append(_fail("C12", None, f"impacts add up to {float(got.sum())!r}, not the scalar {I!r} ({desc})", sig="scalar-total"))
+                else:
+                    wd = dict(w) if w is not None else {a: 1.0 for a in distinct}
+                    sw = sum(wd[a] for a in distinct)
+                    if any(abs(float(got[a]) - I * wd[a] / sw) > 1e-9 * I for a in distinct):
+                        failures.append(_fail("C12", None, f"shares not proportional to the weights of the distinct listed industries ({desc})", sig="scalar-shares-dup"))
+            cf.check({"scn": f"ctorl-{k}", "t": 0, "ob": "ctor.labelled", "desc": str(desc)[:300]},
+                     f"chk_scalar_lbl {q(I)} {nl([lbl(a) for a in aff])} {wl(w, lbl)} {il(got)}")
+        else:
+            regs, secs = rng.sample(regions, rng.randint(1, 3)), rng.sample(sectors, rng.randint(1, 3))
+            if dup:
+                which = rng.choice(["r", "s", "rs"])
+                if "r" in which:
+                    regs = regs + [rng.choice(regs)]
+                    rng.shuffle(regs)
+                if "s" in which:
+                    secs = secs + [rng.choice(secs) for _ in range(rng.randint(1, 2))]
+                    rng.shuffle(secs)
+            wr = ws_ = None
+            rd = sd = "equal"
+            if rng.random() < 0.5:
+                wr = [(r, rng.choice([1.0, 2.0, 5.5])) for r in list(dict.fromkeys(regs)) + rng.sample([x for x in regions if x not in regs], rng.randint(0, 1))]
+                rng.shuffle(wr)
+                rd = pd.Series(dict(wr))
+            if rng.random() < 0.5:
+                ws_ = [(s_, rng.choice([1.0, 3.0, 0.25])) for s_ in dict.fromkeys(secs)]
+                if rng.random() < 0.15:
+                    ws_.pop(rng.randrange(len(ws_)))
+                rng.shuffle(ws_)
+                sd = pd.Series(dict(ws_)) if ws_ else pd.Series(dtype=float)
+            got = err = None
+            try:
+                got = scen.bev.from_scalar_regions_sectors(I, event_type="recovery", affected_regions=list(regs), affected_sectors=list(secs),
+                                                           impact_regional_distrib=rd, impact_sectoral_distrib=sd, recovery_tau=5).impact
+            except Exception as ex:  # noqa: BLE001
+                err = ex
+            evals += 1
+            dup_stats["regions x sectors" + ("+dup" if dup else "")] += 1
+            desc = dict(kind="regions x sectors (labelled)", I=I, regions=regs, sectors=secs, wr=wr, ws=ws_)
+            dr, ds = list(dict.fromkeys(regs)), list(dict.fromkeys(secs))
+            if got is not None:
+                if sorted(got.index) != sorted((r, s_) for r in dr for s_ in ds):
+                    failures.append(_fail("C12", None, f"impact entries {list(got.index)} are not the product of the distinct listed regions and sectors ({desc})",
+                                          sig="scalar-support-dup"))
+                elif abs(float(got.sum()) - I) > 1e-9 * I:
+                    failures.append(_fail("C12", None, f"impacts add up to {float(got.sum())!r}, not the scalar {I!r} ({desc})", sig="scalar-total"))
+                else:
+                    a = dict(wr) if wr is not None else {r: 1.0 for r in dr}
+                    b = dict(ws_) if ws_ is not None else {s_: 1.0 for s_ in ds}
+                    sa, sb = sum(a[r] for r in dr), sum(b[s_] for s_ in ds)
+                    if any(abs(float(got[(r, s_)]) - I * a[r] / sa * b[s_] / sb) > 1e-9 * I for r in dr for s_ in ds):
+                        failures.append(_fail("C12", None, f"shares are not regional x sectoral weights over the distinct listed labels ({desc})",
+                                              sig="scalar-product-shares-dup"))
+            cf.check({"scn": f"ctorl-{k}", "t": 0, "ob": "ctor.labelled", "desc": str(desc)[:300]},
+                     f"chk_regsec_lbl {q(I)} {nl([rid[r] for r in regs])} {nl([sid_[s_] for s_ in secs])} "
+                     f"{wl(wr, lambda r: rid[r])} {wl(ws_, lambda s_: sid_[s_])} {il(got)}")
+    samples.append(dict(kind="labelled constructor calls", counts=dict(dup_stats)))
     verdicts = cases.run_casefiles([(os.path.join(cases.BUILD, f"ctor_{os.getpid()}"), cf)], jobs=1)
     try:
         os.remove(os.path.join(cases.BUILD, f"ctor_{os.getpid()}.v"))
     except OSError:
         pass
     bad = [(t, c, d) for t, c, d in verdicts if c != 0]
-    obligations = [("corr:ctor.scalar", not bad,
-                    f"{len(verdicts)} constructor calls agree with Ctor.distribute_scalar" if not bad else
+    obligations = [("corr:ctor.scalar+ctor.labelled", not bad,
+                    f"{len(verdicts)} constructor calls agree with Ctor.distribute_scalar / scalar_labelled / regsec_labelled" if not bad else
                     f"{len(bad)}/{len(verdicts)} disagree: " + "; ".join(f"{t['desc'][:160]} -> {cases.VERDICT.get(c, c)} {d[-200:]}" for t, c, d in bad[:3]))]
     for t, c, d in bad[:3]:
         failures.append(_fail("C12", None, f"constructor disagrees with the model of distribute_scalar: {t['desc'][:200]}", sig="ctor-model-mismatch"))
@@ -1013,6 +1124,15 @@ def extra_c20(seed, tier, log):
         expect_accept("arbitrary impact of exactly 100%", s)
         s = base(); e, inds, K, k = ev_rec(s); e["impact"] = [[list(inds[k]), K[k] * 1.5]]; s["events"] = [e]; s["id"] += "-overK"
         expect_reject("impact larger than the capital stock", s)
+        s = base(); e, inds, K, k = ev_rec(s)
+        s["model"]["capital"] = {"kind": "ratio_dict", "dict_items": [[sec, 0.0 if sec == inds[k][1] else 4.0] for sec in s["table"]["sectors"]]}
+        e["impact"] = [[list(inds[k]), K[k] * 1e-6]]; s["events"] = [e]; s["id"] += "-zeroK"
+        expect_reject("impact on an industry owning no capital (zero ratio)", s)
+        s = base(); e, inds, K, k = ev_rec(s, type="rebuild", tau=5, rebuilding_sectors=[[s["table"]["sectors"][0], 1.0]]); e.pop("recovery_function")
+        vals = [0.0 if i == k else K[i] for i in range(len(K))]
+        s["model"]["capital"] = {"kind": "series", "labels": [list(i) for i in inds], "values": vals}
+        e["impact"] = [[list(inds[k]), K[k] * 1e-4]]; s["events"] = [e]; s["id"] += "-zeroKvec"
+        expect_reject("impact on an industry owning no capital (zero entry in the capital vector)", s)
         s = base(); e, inds, K, k = ev_rec(s); e["impact"] = [[["nowhere", inds[k][1]], 5.0]]; s["events"] = [e]; s["id"] += "-reg"
         expect_reject("unknown region", s)
         s = base(); e, inds, K, k = ev_rec(s); e["impact"] = [[[inds[k][0], "nosector"], 5.0]]; s["events"] = [e]; s["id"] += "-sec"
